@@ -69,6 +69,10 @@ def run(rep, tier):
                     for ol in (16, 32, 41):
                         cases.append((js, cname, layout, "case_kdf", (a, kl, cl, ol), "kdf%s key %d custom %d output %d" % (sfx, kl, cl, ol),
                                       "ascon_kdf" + sfx))
+            for (kl, cl, decl, ch) in ((16, 0, 0, (16,)), (9, 8, 0, (5, 20)), (16, 3, 32, (32,)), (8, 0, 48, (7, 9))):
+                cases.append((js, cname, layout, "case_kdf_inc", (a, kl, cl, decl, ch),
+                              "kdf%s incremental key %d custom %d declared %d squeezed %s" % (sfx, kl, cl, decl, list(ch)),
+                              "ascon_kdf%s_init" % sfx))
         for hm in (False, True):
             # password / salt lengths around the HMAC block (64) and digest (32) sizes and the cXOF rate
             for (pl, sl) in (((0, 0), (32, 8), (33, 1), (64, 16), (65, 40)) if tier == "quick" else
